@@ -71,6 +71,58 @@ func genPairs(rng *rand.Rand) []string {
 	return ps
 }
 
+var hdrBadExprs = []string{"(", "[a", "*", "a{2,1}", "\\", "(?P<n", ")", "(?z)"}
+var hdrGlue = []string{",", "=", ":", ";", "|", "&", " ", "\x00", "\n", "/", ""}
+
+// genBadPairs: a list that cannot be applied (an expression that does not compile, at a random position, or
+// a dangling name). The call fails loudly and the previous constraint set stays in force.
+func genBadPairs(rng *rand.Rand) []string {
+	ps := genPairs(rng)
+	for len(ps) < 2 {
+		ps = genPairs(rng)
+	}
+	if len(ps) == 2 || rng.Intn(2) == 0 {
+		ps = append(ps, hdrNames[rng.Intn(len(hdrNames))], hdrExprs[1+rng.Intn(len(hdrExprs)-1)])
+	}
+	if rng.Intn(6) == 0 {
+		return append(ps, "X-Dangling")
+	}
+	ps[1+2*rng.Intn(len(ps)/2)] = hdrBadExprs[rng.Intn(len(hdrBadExprs))]
+	return ps
+}
+
+// gluedTwin: a different list that reads the same as ps when the arguments are joined by a separator.
+func gluedTwin(rng *rand.Rand, ps []string) []string {
+	if len(ps) < 4 {
+		return nil
+	}
+	sep := hdrGlue[rng.Intn(len(hdrGlue))]
+	if rng.Intn(2) == 0 {
+		return []string{ps[0], regexpSafeJoin(ps[1:], sep)}
+	}
+	return []string{strings.Join(ps[:len(ps)-1], sep), ps[len(ps)-1]}
+}
+
+func regexpSafeJoin(parts []string, sep string) string {
+	e := strings.Join(parts, sep)
+	if _, err := regexp.Compile(e); err != nil {
+		return regexp.QuoteMeta(e)
+	}
+	return e
+}
+
+func pairsBad(ps []string) bool {
+	if len(ps)%2 != 0 {
+		return true
+	}
+	for i := 1; i < len(ps); i += 2 {
+		if _, err := regexp.Compile(ps[i]); err != nil {
+			return true
+		}
+	}
+	return false
+}
+
 func genReqHeaders(rng *rand.Rand, want []string) [][2]string {
 	var out [][2]string
 	// route-directed: try to satisfy (or just miss) the constraints of a chosen route
@@ -122,6 +174,27 @@ func genHistCase(rng *rand.Rand, prop string) *histCase {
 	if prop == "C10" {
 		constrainP = 15
 	}
+	var earlier [][]string // lists given earlier in this history (for glued twins)
+	addHeaders := func(ref int) {
+		ps := genPairs(rng)
+		switch y := rng.Intn(12); {
+		case y == 0:
+			// a call that fails: nothing changes (lastPairs keeps directing requests at the set in force)
+			c.Steps = append(c.Steps, histStep{Op: "headers", Ref: ref, Pairs: genBadPairs(rng)})
+			return
+		case y == 1 && len(earlier) > 0:
+			if tw := gluedTwin(rng, earlier[rng.Intn(len(earlier))]); tw != nil {
+				c.Steps = append(c.Steps, histStep{Op: "headers", Ref: ref, Pairs: tw})
+				// requests are directed at the list the twin was glued from: those are the ones that tell them apart
+				return
+			}
+		}
+		c.Steps = append(c.Steps, histStep{Op: "headers", Ref: ref, Pairs: ps})
+		lastPairs[ref] = ps
+		if len(ps) >= 4 {
+			earlier = append(earlier, ps)
+		}
+	}
 	for s := 0; s < nSteps; s++ {
 		x := rng.Intn(10)
 		switch {
@@ -132,15 +205,10 @@ func genHistCase(rng *rand.Rand, prop string) *histCase {
 			routes = append(routes, rt)
 			routeMeth = append(routeMeth, m)
 			if rng.Intn(100) < constrainP {
-				ps := genPairs(rng)
-				c.Steps = append(c.Steps, histStep{Op: "headers", Ref: len(routes) - 1, Pairs: ps})
-				lastPairs[len(routes)-1] = ps
+				addHeaders(len(routes) - 1)
 			}
 		case x < 4:
-			ref := rng.Intn(len(routes))
-			ps := genPairs(rng)
-			c.Steps = append(c.Steps, histStep{Op: "headers", Ref: ref, Pairs: ps})
-			lastPairs[ref] = ps
+			addHeaders(rng.Intn(len(routes)))
 		default:
 			ri := rng.Intn(len(routes))
 			rt := routes[ri]
@@ -220,6 +288,7 @@ func runHist(r *core.Run, prop string) {
 		r.GateCounter("requests-compared", int64(n)*4)
 		r.GateCounter("constraint-failed-lower-priority-took-over", 50)
 		r.GateCounter("constraint-failed-not-found", 50)
+		r.GateCounter("failed-headers-call-then-requests", 50)
 	} else {
 		r.Gate("distinct_nontrivial", r.NonTrivialCount(), 5000)
 		r.GateCounter("requests-compared", int64(n)*4)
@@ -337,6 +406,16 @@ func judgeHist(w *core.W, c *histCase, prop string) {
 				o.buf = append(o.buf[:0], st.Pairs...)
 				o.fr.Headers(o.buf...)
 			}()
+			if pairsBad(st.Pairs) {
+				if pan == nil {
+					// what an accepted, inapplicable list would mean is not stated: the rest of the history is not judged
+					w.Count("unjudged:inapplicable-headers-accepted")
+					return
+				}
+				// the call failed: the set in force is the one before it
+				w.Count("failed-headers-call-then-requests")
+				continue
+			}
 			if pan != nil {
 				w.Violate("headers-panic", c, fmt.Sprintf("step %d: Headers(%q) panicked: %v", si, st.Pairs, pan))
 				return
